@@ -21,15 +21,6 @@ Definition typed_val (k : kind) (w : nat) (v : Z) : gval :=
   | KFloat => match w with 4%nat => GF32 v | _ => GF64 v end
   end.
 
-Definition new_leaf (k : kind) (w : nat) (args : list gval) : option item :=
-  match k with
-  | KInt => new_int w args
-  | KUint => new_uint w args
-  | KBin => new_binary args
-  | KBool => new_boolean args
-  | KFloat => new_float w args
-  end.
-
 Definition slot_arg (k : kind) (w : nat) (s : fmap) (x : slot) : gval :=
   match x with
   | SV v => typed_val k w v
